@@ -151,6 +151,24 @@ def lpc_e(e, names):
         return "%s(%s)" % (e[1], ", ".join(lpc_e(x, names) for x in e[2])) if e[2] is not None else e[1]
     if k == "lam2":              # anonymous functional (: $1 op $2 :) applied to two arguments
         return "evaluate((: $1 %s $2 :), %s, %s)" % (BINOPS[e[1]], lpc_e(e[2], names), lpc_e(e[3], names))
+    if k == "par":               # $N inside a functional
+        return "$%d" % e[1]
+    if k == "bnd":               # $(e): e is evaluated when the functional is created, in the context around the functional
+        return "$(%s)" % lpc_e(e[1], e[2] if len(e) > 2 else names)
+    if k == "fun":               # functional (: body :)
+        return "(: %s :)" % lpc_e(e[1], names)
+    if k == "anon":              # anonymous function with its own parameters / locals p0, p1, ...
+        pn = ["p%d" % q for q in range(e[1] + e[2])]
+        decl = ("mixed %s; " % ", ".join(pn[e[1]:])) if e[2] else ""
+        return "function(%s) { %s%s }" % (", ".join("mixed " + q for q in pn[:e[1]]), decl, " ".join(lpc_s(x, pn) for x in e[3]))
+    if k == "ev":                # evaluate(f, args...) in one of its spellings
+        f = lpc_e(e[1], names)
+        args = [lpc_e(x, names) for x in e[2]]
+        if e[3] == "star":
+            return "(*%s)(%s)" % (f, ", ".join(args))
+        if e[3] == "helper":
+            return "ap%d(%s)" % (len(args), ", ".join([f] + args))
+        return "evaluate(%s)" % ", ".join([f] + args)
     if k == "id":                # identifier inside a macro body (parameter, variable or efun name - decided by substitution)
         return e[1]
     if k == "paren":
@@ -217,6 +235,8 @@ def lpc_s(s, names):
         return "switch (%s) { %s }" % (lpc_e(s[1], names), arms)
     if k == "block":
         return "{ %s }" % " ".join(lpc_s(x, names) for x in s[1])
+    if k == "fdef":              # names[k] = <functional>;
+        return "%s = %s;" % (names[s[1]], lpc_e(s[2], names))
     raise ValueError(s)
 
 
@@ -353,6 +373,124 @@ for _n in ("f", "h"):
         _h(_n + "_sum", 1, ["mixed", "mixed"], _SUM),
     ]
 
+
+# ---- functionals: lowering for the S-expression ---------------------------------------------------------------
+# The reference semantics of a functional is BY VALUE: `evaluate((: body :), a1..an)` is the body with every `$(e)` replaced by
+# the value e had when the functional was CREATED (e is evaluated in the context around the functional: the enclosing
+# function's variables, or the `$N` of an enclosing functional) and `$N` by the N-th argument.  For the S-expression each
+# functional becomes a synthesised function `lamK` whose parameters are the bound values (creation order) followed by the
+# arguments; creating it evaluates the bound expressions (kept in hidden locals when the functional is stored in a variable),
+# applying it is an ordinary call.  Nothing of this is known to the driver side: the LPC text uses (: :), $N, $(..).
+HBASE = 10          # hidden locals of a test function start here (sx only)
+APN_LPC = ["mixed ap%d(%s) { return evaluate(%s); }" % (n, ", ".join(["mixed f"] + ["mixed q%d" % i for i in range(n)]),
+                                                       ", ".join(["f"] + ["q%d" % i for i in range(n)])) for n in range(0, 4)]
+
+
+class Lower:
+    def __init__(self, shared):
+        self.sh = shared            # {"n": counter, "fns": [sx text]}
+        self.stored = {}            # local index -> (lam name, hidden slots)
+        self.hidden = 0
+
+    def binds_of(self, body):
+        out = []
+
+        def walk(x):
+            if isinstance(x, tuple) and x:
+                if x[0] == "bnd":
+                    out.append(x[1])
+                    return
+                if x[0] in ("fun", "anon"):
+                    if x[0] == "fun":
+                        # the bound expressions of an inner functional are evaluated in OUR context; our own $(..) are not
+                        # generated inside them
+                        pass
+                    return
+                for y in x:
+                    walk(y)
+            elif isinstance(x, list):
+                for y in x:
+                    walk(y)
+        walk(body)
+        return out
+
+    def inner_binds_scan(self, body):
+        """binds of this functional in textual order, including none from nested functionals"""
+        return self.binds_of(body)
+
+    def make_fun(self, fun, nargs, env):
+        """returns (lam name, bound expressions lowered in the surrounding context env)"""
+        if fun[0] == "anon":
+            name = "lam%d" % self.sh["n"]
+            self.sh["n"] += 1
+            inner = Lower(self.sh)
+            body = ("block", [inner.stmt(x, None) for x in fun[3]])
+            self.sh["fns"].append("(fn %s %d (%s) %s)" % (name, fun[1], " ".join(["mixed"] * (fun[2] + inner.hidden)), sx_s(body)))
+            return name, []
+        body = fun[1]
+        binds = self.binds_of(body)
+        nb = len(binds)
+        name = "lam%d" % self.sh["n"]
+        self.sh["n"] += 1
+        sub = {"nb": nb, "next": 0}
+        lowered = self.expr(body, sub)
+        assert sub["next"] == nb, (sub, nb)
+        self.sh["fns"].append("(fn %s %d () (block (ret %s)))" % (name, nb + nargs, sx_e(lowered)))
+        return name, [self.expr(b, env) for b in binds]
+
+    def expr(self, e, env):
+        if isinstance(e, list):
+            return [self.expr(x, env) for x in e]
+        if not isinstance(e, tuple) or not e:
+            return e
+        k = e[0]
+        if k == "par":
+            assert env is not None
+            return ("l", env["nb"] + e[1] - 1)
+        if k == "bnd":
+            assert env is not None
+            q = env["next"]
+            env["next"] += 1
+            return ("l", q)
+        if k == "ev":
+            f, args = e[1], e[2]
+            if f[0] in ("fun", "anon"):
+                name, bl = self.make_fun(f, len(args), env)
+                return ("call", name, bl + [self.expr(a, env) for a in args], "local")
+            assert f[0] == "l" and f[1] in self.stored, e
+            name, slots = self.stored[f[1]]
+            return ("call", name, [("l", q) for q in slots] + [self.expr(a, env) for a in args], "local")
+        if k in ("fun", "anon"):
+            raise ValueError("functional outside evaluate / fdef: %r" % (e,))
+        return tuple(self.expr(x, env) if isinstance(x, (tuple, list)) else x for x in e)
+
+    def stmt(self, s, env):
+        if isinstance(s, tuple) and s and s[0] == "fdef":
+            name, bl = self.make_fun(s[2], s[3], env)
+            slots = list(range(HBASE + self.hidden, HBASE + self.hidden + len(bl)))
+            self.hidden += len(bl)
+            self.stored[s[1]] = (name, slots)
+            return ("block", [("expr", ("asg", ("l", q), b)) for q, b in zip(slots, bl)])
+        if isinstance(s, tuple):
+            if s and s[0] in ("expr", "ret"):
+                return (s[0], self.expr(s[1], env))
+            return tuple(self.stmt(x, env) if isinstance(x, tuple) and x and isinstance(x[0], str) and x[0] in STMT_KINDS
+                         else (self.expr(x, env) if isinstance(x, (tuple, list)) else x) for x in s)
+        return s
+
+
+STMT_KINDS = ("expr", "ret", "if", "while", "do", "for", "foreach", "foreach2", "switch", "block", "fdef")
+
+
+def has_funp(x):
+    if isinstance(x, tuple) and x:
+        if x[0] in ("ev", "fdef"):
+            return True
+        return any(has_funp(y) for y in x)
+    if isinstance(x, list):
+        return any(has_funp(y) for y in x)
+    return False
+
 NAMES = [n for n, _ in LOCALS]
 DECL = "mixed a, b, c, d; int i, j, n; float x, y; string s;"
 
@@ -362,10 +500,17 @@ def make_case(cid, fns, same=None, defines=(), meta=None):
     lines = ["L " + l for l in HELPER_LPC] + ["L " + d for d in defines]
     sx_fns = list(HELPER_SX)
     tys = " ".join(TYN[t] for _, t in LOCALS)
+    shared = {"n": 0, "fns": []}
     for k, body in enumerate(fns):
-        b = ("block", list(body))
         lines.append("L mixed t%d() { %s %s }" % (k, DECL, " ".join(lpc_s(x, NAMES) for x in body)))
-        sx_fns.append("(fn t%d 0 (%s) %s)" % (k, tys, sx_s(b)))
+        if has_funp(body):
+            lo = Lower(shared)
+            b = ("block", [lo.stmt(x, None) for x in body])
+            sx_fns.append("(fn t%d 0 (%s) %s)" % (k, tys + " mixed" * lo.hidden, sx_s(b)))
+        else:
+            b = ("block", list(body))
+            sx_fns.append("(fn t%d 0 (%s) %s)" % (k, tys, sx_s(b)))
+    sx_fns += shared["fns"]
     gt = " ".join(TYN[t] for _, t in GLOBALS)
     lines.append("sx (prog (%s) %s)" % (gt, " ".join(sx_fns)))
     lines.append("run %d" % len(fns))
@@ -1774,8 +1919,113 @@ class C03(Prop):
             fns, same = variants(("idx", L(C), key), [("expr", ("asg", L(C), Map([(I(1), I(2))])))], lambda _: ("idx", L(C), key))
         return make_case(cid, fns, same=same, meta={"origin": "generated", "family": "selfop", "kind": kind, "op": op, "where": where})
 
+    def fam_funp(self, rng, cid):
+        """functionals (: .. :) with $N, $(..) bound at creation, nested functionals (the inner one binds the outer's $N), stored
+        functionals evaluated after the bound variable changed, (*f)(..), evaluate through a helper function, anonymous
+        functions - each next to its hand expansion (substitution by value)."""
+        mode = rng.weighted([("num", 6), ("str", 3), ("arr", 2)])
+        if mode == "num":
+            lit = lambda: I(rng.choice([0, 1, 2, 3, 5, 7, 10, 100, 1000, -1, -4, 2 ** 32, I64MAX])) if rng.chance(4, 5) else Fl(rng.choice([0.5, 1.5, -2.25, 3.0]))
+            ops = ["add", "sub", "mul", "add"]
+        elif mode == "str":
+            lit = lambda: S(rng.choice([b"a", b"bc", b"", b"[", b"]", b"x\xc3\xa9", b"k"])) if rng.chance(4, 5) else I(rng.range(0, 9))
+            ops = ["add"]
+        else:
+            lit = lambda: Arr([I(rng.range(0, 9)) for _ in range(rng.range(0, 2))])
+            ops = ["add", "add", "sub"]
+        setup = [("expr", ("asg", L(A), lit())), ("expr", ("asg", L(B), lit())), ("expr", ("asg", L(C), lit())),
+                 ("expr", ("asg", G(0), lit()))]
+        top_ctx = lambda: rng.choice([L(A), L(B), L(C), lit(), ("bin", rng.choice(ops), L(A), L(B))])
+
+        def body(depth, npar, ctx, size):
+            """expression of a functional with npar parameters; ctx () yields an expression of the surrounding context"""
+            def leaf():
+                k = rng.weighted([("par", 5), ("bnd", 4 if depth < 2 else 2), ("lit", 2), ("glob", 1)])
+                if k == "par" and npar:
+                    return ("par", rng.range(1, npar))
+                if k == "bnd":
+                    return ("bnd", ctx())
+                if k == "glob":
+                    return G(0)
+                return lit()
+
+            def node(sz):
+                if sz <= 1:
+                    return leaf()
+                k = rng.weighted([("bin", 6), ("nest", 4 if depth < 2 else 0), ("call", 1), ("cond", 1 if mode == "num" else 0)])
+                if k == "nest":
+                    m = rng.range(1, 2)
+                    inner_ctx = lambda: (("par", rng.range(1, npar)) if npar and rng.chance(2, 3) else lit())
+                    inner = body(depth + 1, m, inner_ctx, rng.range(2, 4))
+                    return ("ev", ("fun", inner), [leaf() for _ in range(m)], "evaluate")
+                if k == "call":
+                    return ("call", "f_add", [node(sz // 2), node(sz - sz // 2)], "local")
+                if k == "cond":
+                    return ("cond", ("bin", rng.choice(["lt", "ge"]), leaf(), leaf()), node(sz // 2), node(sz - sz // 2))
+                return ("bin", rng.choice(ops), node(sz // 2), node(sz - sz // 2))
+            # shape that matters: a parameter / bound value AFTER a nested functional
+            if depth == 0 and rng.chance(1, 2):
+                return ("bin", rng.choice(ops), ("bin", rng.choice(ops), leaf(), node(max(size - 2, 2))), leaf())
+            return node(size)
+
+        def rebind(x, f):
+            if isinstance(x, tuple) and x:
+                if x[0] == "bnd":
+                    return ("bnd", f(x[1]))
+                if x[0] in ("fun", "anon"):
+                    return x
+                return tuple(rebind(y, f) if isinstance(y, (tuple, list)) else y for y in x)
+            if isinstance(x, list):
+                return [rebind(y, f) for y in x]
+            return x
+
+        def expand(x, args):
+            if isinstance(x, tuple) and x:
+                if x[0] == "par":
+                    return args[x[1] - 1]
+                if x[0] == "bnd":
+                    return x[1]
+                if x[0] == "ev" and x[1][0] == "fun":
+                    ib = rebind(x[1][1], lambda e: expand(e, args))
+                    return expand(ib, [expand(a, args) for a in x[2]])
+                return tuple(expand(y, args) if isinstance(y, (tuple, list)) else y for y in x)
+            if isinstance(x, list):
+                return [expand(y, args) for y in x]
+            return x
+        npar = rng.range(1, 3)
+        bd = body(0, npar, top_ctx, rng.range(3, 8))
+        pure = lambda: rng.choice([L(A), L(B), L(C), lit()])
+        args = [pure() for _ in range(npar)]
+        args2 = [pure() for _ in range(npar)]
+        fun = ("fun", bd)
+        change = [("expr", ("asg", L(A), lit())), ("expr", ("asg", L(B), lit())), ("expr", ("asg", L(C), lit()))]
+        hand = expand(bd, args)
+        fns = [setup + [("ret", ("ev", fun, args, "evaluate"))],
+               setup + [("fdef", D, fun, npar), ("ret", ("ev", L(D), args, "evaluate"))],
+               setup + [("fdef", D, fun, npar), ("ret", ("ev", L(D), args, "star"))],
+               setup + [("ret", ("ev", fun, args, "helper"))],
+               setup + [("ret", hand)]]
+        same = [[0, 1, 2, 3, 4]]
+        # bound at creation: the variables change afterwards, the arguments are literals
+        largs = [lit() for _ in range(npar)]
+        fns.append(setup + [("fdef", D, fun, npar)] + change + [("ret", ("ev", L(D), largs, "evaluate"))])
+        fns.append(setup + [("ret", expand(bd, largs))])
+        same.append([5, 6])
+        # one stored functional applied twice
+        fns.append(setup + [("fdef", D, fun, npar), ("ret", Arr([("ev", L(D), args, "evaluate"), ("ev", L(D), args2, "star")]))])
+        fns.append(setup + [("ret", Arr([hand, expand(bd, args2)]))])
+        same.append([7, 8])
+        # anonymous function with a local, called with the same arguments
+        op1, op2 = rng.choice(ops), rng.choice(ops)
+        k2 = lit()
+        anon = ("anon", npar, 1, [("expr", ("asg", L(npar), ("bin", op1, L(0), L(npar - 1)))), ("ret", ("bin", op2, L(npar), k2))])
+        fns.append(setup + [("ret", ("ev", anon, args, rng.choice(["evaluate", "helper"])))])
+        fns.append(setup + [("ret", ("bin", op2, ("bin", op1, args[0], args[npar - 1]), k2))])
+        same.append([9, 10])
+        return make_case(cid, fns, same=same, defines=APN_LPC, meta={"origin": "generated", "family": "funp", "mode": mode})
+
     FAMS = [("fam_binop", 9), ("fam_unop", 2), ("fam_incdec", 3), ("fam_index", 5), ("fam_range", 5), ("fam_lvalue", 6),
-            ("fam_switch", 6), ("fam_loop", 6), ("fam_assignop", 5), ("fam_literal", 2), ("fam_rewrite", 4), ("fam_macro", 3), ("fam_calls", 5), ("fam_mapalg", 7), ("fam_maptrace", 5), ("fam_macrosubst", 7), ("fam_mdef", 4), ("fam_strswitch", 6), ("fam_selfop", 8)]
+            ("fam_switch", 6), ("fam_loop", 6), ("fam_assignop", 5), ("fam_literal", 2), ("fam_rewrite", 4), ("fam_macro", 3), ("fam_calls", 5), ("fam_mapalg", 7), ("fam_maptrace", 5), ("fam_macrosubst", 7), ("fam_mdef", 4), ("fam_strswitch", 6), ("fam_selfop", 8), ("fam_funp", 8)]
 
     def generate(self, rng, n, tier):
         out = []
